@@ -280,7 +280,9 @@ func genHostsFiles(ctx *core.Ctx) []*hostsFile {
 			core.Fatalf("generated hosts file %q is not rejected by the harness's reading", hf.text)
 		}
 		if hf.form != "rejected" && hf.state == "" && hf.reject != "" {
-			core.Fatalf("generated hosts file %q is rejected by the harness's reading: %s", hf.text, hf.reject)
+			// a file meant to be well-formed came out unreadable (a drawn line of names beyond the scanner's
+			// 64 KiB limit): it is a rejected file like the others
+			hf.form = "rejected"
 		}
 	}
 	return out
